@@ -549,7 +549,18 @@ func (w *World) Build(parent *MBlock, o BlockOpts) *MBlock {
 		if commitMode == "wrong" {
 			c[5] ^= 0x40
 		}
-		pk := append([]byte{txscript.OP_RETURN, 0x24, 0xaa, 0x21, 0xa9, 0xed}, c[:]...)
+		magic := []byte{txscript.OP_RETURN, 0x24, 0xaa, 0x21, 0xa9, 0xed}
+		bad := c
+		bad[7] ^= 0x22
+		// with several commitment-shaped outputs the LAST one counts (BIP141)
+		switch commitMode {
+		case "two-last-good":
+			cb.AddTxOut(&wire.TxOut{Value: 0, PkScript: append(append([]byte(nil), magic...), bad[:]...)})
+		case "two-last-bad":
+			cb.AddTxOut(&wire.TxOut{Value: 0, PkScript: append(append([]byte(nil), magic...), c[:]...)})
+			c = bad
+		}
+		pk := append(append([]byte(nil), magic...), c[:]...)
 		cb.AddTxOut(&wire.TxOut{Value: 0, PkScript: pk})
 	}
 	if bp.sizeTarget > 0 {
